@@ -8,6 +8,14 @@ CLAIMED = {
    text="Contracts on the three interval calculators (segment/family/slot arithmetic), on Truncate/CalPointCount/CalIntervalRatio, Interval.Type/Calculator/CalcSlotRange and the range types are discharged for all timestamps in 1973..2096 and all admitted intervals; partition/tiling/idempotence are lemmas over the contracts' specification functions; the implementations are shown to refine the IntervalCalculator interface contract.",
    note="Assumed: civil-calendar contract of package time in a fixed-offset zone (axioms cal_*, validated by a bounded run 1970..2100, listed as bounded stand-in); mathematical integers with explicit overflow/conversion obligations; input domain tsOK (1973-03..2096-10).",
    design="4/C13"),
+ "C05": dict(
+   text="Contracts on queue.Put/alloc/persistMetaOfMessage/Get/validateSequence/initDataPageIndex and on the mapped-page and page-factory layer (byte-level view of mapped pages) are discharged for all states satisfying the representation invariant: dense sequences, read-back of the appended bytes, earlier index entries and earlier message bytes untouched by an append, the invariants 'every readable message lies below the write cursor' and 'the last entry ends highest' are inductive for Put, and the cursor restored by initDataPageIndex lies above every readable message; a crash invariant (index entry before appended sequence) is checked after every page store of persistMetaOfMessage; Put must be one atomic step w.r.t. the queue lock (obligation atomic.rwMutex).",
+   note="Sequential contracts + lock discipline (lockset obligations, one critical section or a serializing lock per operation): interleavings inside one critical section are not modelled. Assumed: mmap'ed bytes behave as memory in program order (process crash, no torn stores), constructors NewMappedPage/NewFactory (function variables) satisfy their declared contracts, each interface has its single production implementation (cast), encoding/binary and go.uber.org/atomic contracts, sequences < 2^62. NewQueue and Close are not under contract.",
+   design="4/C05"),
+ "C06": dict(
+   text="Contracts on consumerGroup.consume/Ack/SetConsumedSeq/SetSeq/Pending/IsEmpty, NewConsumerGroup, fanOutQueue.Sync (loop invariant over the group map with a visited set), queue.SetAcknowledgedSeq/SetAppendedSeq/GC and factory.TruncatePages/AcquirePage/GetPage are discharged: acknowledged <= consumed <= appended is preserved, consume hands out consumed+1 or nothing, out-of-range acks change nothing, the queue ack only moves forward, never beyond appended nor beyond the smallest group ack, GC unmaps only pages below the page of the acknowledged sequence, persisted positions equal the in-memory ones; implementations refine the interface contracts used at call sites.",
+   note="Sequential contracts + lockset obligations (Ack writes the acknowledged position under the read lock: concurrent Acks are not excluded, declared rwrites). Assumed: same trusted base as C05; disk hypothesis cgDiskOK (persisted group meta satisfies ack <= consumed) for NewConsumerGroup; GetOrCreateConsumerGroup/StopConsumerGroup/Close not under contract.",
+   design="4/C06"),
 }
 TECH = "contract-based deductive verification: //@ contracts on the real functions, VCs generated from go/ssa by govc, discharged by z3/cvc5"
 
